@@ -31,6 +31,9 @@ def specs(tier):
         J('fork-steady2-childkill:H2S1K1Q1R1', 'steady', dict(n=2, journal='file+dump', use_fork=True), dict(H=2, S=1, K=1, Q=1), dict(k=3)),
         J('fork-lagging3-childkill:H2K1Q1R1', 'lagging', dict(n=3, journal='file+dump', use_fork=True), dict(H=2, K=1, Q=1, R=1), dict(k=2, j=2)),
         J('ver-lagsnap3:S1H2R1', 'version_snap', dict(n=3, obj='vnew'), dict(S=1, H=2, R=1), extra_monitors=(('mc.monitors_c17', 'VersionMonitor', {}),)),
+        J('fork-steady2-k3-childfail:H2K1Q1P1', 'steady', dict(n=2, journal='file+dump', use_fork=True), dict(H=2, K=1, Q=1, P=1), dict(k=3)),
+        J('ver-stalled-old3:K1P1H1', 'stalled_old_code', dict(n=3, obj='vmixed', journal='file+dump'), dict(K=1, P=1, H=1),
+          extra_monitors=(('mc.monitors_c17', 'VersionMonitor', {}),)),
         J('fork-steady2:H1S1K1P1', 'steady', dict(n=2, journal='file+dump', use_fork=True), dict(H=1, S=1, K=1, P=1), dict(k=2)),
         J('fork-lagging3:H2R1K1S1', 'lagging', dict(n=3, journal='file+dump', use_fork=True, chunk=100), dict(H=2, R=1, K=1, S=1)),
         # user-supplied serializer / deserializer
